@@ -30,6 +30,7 @@ RULE = (
     "is live. Non-trivial: >=2 items delivered and >=2 consumers made progress; distinct = distinct "
     "(scenario, interleaving) by 64-bit hash; schedule_digests_distinct counts distinct (task, token kind) traces."
     " Extensions of rounds 9-12: the tee object itself closed at the end (aclose / async with) with lagging children; closing counts as being inside the source; the source may deliver one object twice in a row; a child may not be told the end before the source reported it."
+    " Round 13: children closed through iter(child); locks that also offer the blocking protocol; reads asked for at call time by hand-written __anext__."
 )
 COMPONENTS = COMPONENTS_AIO
 ASSUMPTIONS = [
